@@ -731,7 +731,10 @@ pub fn finish(ctx: &Ctx, started: Instant, out: Outcome, fin: Finish) -> i32 {
         for e in out.internal_errors.iter().take(5) {
             eprintln!("INTERNAL: {e}");
         }
-        return 2;
+        // a violation that was found stands: an inconsistency of the harness elsewhere does not unsay it
+        if code == 0 {
+            return 2;
+        }
     }
     if code == 0 && !vacuity.is_empty() {
         for v in vacuity {
